@@ -345,6 +345,8 @@ def _where(b, data, regions):
     """class of a truncation point: the stream delivers bytes [0, b)"""
     if b == 0:
         return "empty-stream"
+    if regions.get(b) == "data":
+        return "in-data"  # cut right after a header whose member still owes its data: not a complete member
     starts = sorted(regions)
     cur = None
     for o in starts:
@@ -431,6 +433,12 @@ def all_items(tier, scratch):
             step = 64
             for i in range(0, len(cs), step):
                 items.append({"kind": "chunk", "tree": t, "maker": m, "chunks": cs[i:i + step], "bufsize": 65536})
+            if t == "big_file":
+                # the 70 KiB file: cuts at the multiples of the transfer buffer inside its data
+                for bs in (65536, 16384):
+                    cuts = sorted({o + k * bs + d for o, kd in member_regions(data) if kd == "data"
+                                   for k in range(0, 6) for d in (-1, 0, 1) if 0 <= o + k * bs + d < len(data)})
+                    items.append({"kind": "truncate", "tree": t, "maker": m, "offsets": cuts, "bufsize": bs})
             for bs in (1, 512, 700) if t in SMALL and not quick else (700,) if t in SMALL else ():
                 items.append({"kind": "chunk", "tree": t, "maker": m, "chunks": [1, 513, 65536], "bufsize": bs})
             if t in SMALL:
@@ -443,6 +451,12 @@ def all_items(tier, scratch):
                     offs = list(range(0, len(data)))
                 for i in range(0, len(offs), 400):
                     items.append({"kind": "truncate", "tree": t, "maker": m, "offsets": offs[i:i + 400], "bufsize": 65536})
+                # files larger than the transfer buffer: cuts at every multiple of the buffer size inside the data (+-1)
+                if t in ("dir2", "nested", "three_files", "longname"):
+                    for bs in (256, 512) if quick else (100, 256, 512, 700):
+                        cuts = sorted({o + k * bs + d for o, kd in member_regions(data) if kd == "data"
+                                       for k in range(0, 8) for d in (-1, 0, 1) if 0 <= o + k * bs + d < len(data)})
+                        items.append({"kind": "truncate", "tree": t, "maker": m, "offsets": cuts, "bufsize": bs})
                 # header checksum corruption: bytes 148..155 of every header block
                 hdrs = [o for o, k in member_regions(data) if k == "header"]
                 items.append({"kind": "corrupt", "tree": t, "maker": m, "offsets": [h + 148 + j for h in hdrs for j in range(8)],
